@@ -1,9 +1,9 @@
 import LoraVerif.Props.C11
 import LoraVerif.Props.TieA.C11
+import LoraVerif.Props.TieA.PlanMask
 /-!
 # C11 — the module `./check C11` builds: the property theorems (`Props/C11.lean`) together with the
 tie-A equalities between the hand model's constants and the items regenerated from the current
 source (`Props/TieA/C11.lean`).  Kept separate from `Props/C11.lean` so that properties which only
 import C11's lemmas do not inherit its generated units.
-import LoraVerif.Props.TieA.PlanMask
 -/
